@@ -571,9 +571,9 @@ fn evaluate(sc: &Scenario, report: Report, race_phase_events: usize, h3: Vec<Vec
     let mut sig = Digest::new();
     let ev = &report.events[..race_phase_events.min(report.events.len())];
     // per slot: tasks seen before the first write; per once key: tasks entered before first post
-    let mut slot_tasks_before_write: [[u8; N_SLOTS]; 2] = [[0; N_SLOTS]; 2];
+    let mut slot_tasks_before_write: [[u16; N_SLOTS]; 2] = [[0; N_SLOTS]; 2];
     let mut slot_written: [[bool; N_SLOTS]; 2] = [[false; N_SLOTS]; 2];
-    let mut once_tasks: Vec<(u8, u8, bool)> = Vec::new(); // (key idx, task mask, posted)
+    let mut once_tasks: Vec<(u8, u16, bool)> = Vec::new(); // (key idx, task mask, posted)
     let mut first_touch: [[bool; MAX_TASKS]; 60] = [[false; MAX_TASKS]; 60];
     // window tracking for "in initialiser": task -> inside once (between Construct and OncePost)
     let mut in_init: [bool; MAX_TASKS] = [false; MAX_TASKS];
@@ -951,7 +951,7 @@ fn cmd_batch(a: &[String]) -> i32 {
     let first: u64 = a[3].parse().expect("first");
     let n_sc: u64 = a[4].parse().expect("n_scenarios");
     let scheds: u64 = a[5].parse().expect("scheds");
-    let profile = match a[6].as_str() { "full" => Profile::Full, "light" => Profile::Light, "tiny" => Profile::Tiny, "cover" => Profile::Cover, "crash" => Profile::Crash, "ranges" => Profile::Ranges, "pairs" => Profile::Pairs, "xmatch" => Profile::Xmatch, "long" => Profile::Long, _ => { eprintln!("HARNESS-ERROR: bad profile"); return 2; } };
+    let profile = match a[6].as_str() { "full" => Profile::Full, "light" => Profile::Light, "tiny" => Profile::Tiny, "cover" => Profile::Cover, "crash" => Profile::Crash, "ranges" => Profile::Ranges, "pairs" => Profile::Pairs, "xmatch" => Profile::Xmatch, "long" => Profile::Long, "crowd" => Profile::Crowd, _ => { eprintln!("HARNESS-ERROR: bad profile"); return 2; } };
     let sigfile = &a[7];
     let mut bs = BatchStats::default();
     let mut sigs_all: HashSet<u64> = HashSet::new();
